@@ -16,21 +16,22 @@ Proof. intros h _; reflexivity. Qed.
 Lemma ragree_refl s : ragree s s.
 Proof. intros h _; reflexivity. Qed.
 
+(* an exception that leaves the function leaves the lowered function at the same point (same trace) *)
 Theorem lowering_correct_lemma b s d tr o s' d' :
-  run_block b s d tr o s' d' -> lowering_hyps b = true -> o = ONormal \/ o = ORet ->
+  run_block b s d tr o s' d' -> lowering_hyps b = true -> o = ONormal \/ o = ORet \/ o = ORaise ->
   forall sl, (forall f, sl f = false) ->
-  exists sl', run_block (lowered b) sl d tr ONormal sl' d'
-              /\ (o = ORet -> sl' rflag = true) /\ (o = ONormal -> sl' rflag = false).
+  exists sl', run_block (lowered b) sl d tr (ro o) sl' d'
+              /\ (o = ORet -> sl' rflag = true) /\ (o <> ORet -> sl' rflag = false).
 Proof.
   intros R H Ho sl Z. unfold lowering_hyps in H.
   apply andb_true_iff in H; destruct H as [H H3]. apply andb_true_iff in H; destruct H as [H1 H2].
-  assert (N1 : o <> OBrk) by (destruct Ho as [-> | ->]; discriminate).
-  assert (N2 : o <> OCont) by (destruct Ho as [-> | ->]; discriminate).
+  assert (N1 : o <> OBrk) by (destruct Ho as [-> | [-> | ->]]; discriminate).
+  assert (N2 : o <> OCont) by (destruct Ho as [-> | [-> | ->]]; discriminate).
   destruct (break_lowering_correct_lemma _ _ _ _ _ _ _ R H1 N1 sl) as [sl1 R1].
   destruct (continue_lowering_correct_lemma _ _ _ _ _ _ _ R1 H2 N2 sl (agree_refl sl)) as [sl2 [R2 _]].
   { intros _; apply Z. }
   destruct (return_lowering_correct_lemma _ _ _ _ _ _ _ R2 H3 sl (ragree_refl sl) (Z rflag)) as [sl3 [R3 [_ [P1 P2]]]].
   exists sl3. split.
-  - unfold lowered, after_continue, after_break. destruct Ho as [-> | ->]; exact R3.
-  - split; [intros E; apply (P1 E) | intros ->; apply P2; discriminate].
+  - unfold lowered, after_continue, after_break. exact R3.
+  - split; [intros E; apply (P1 E) | exact P2].
 Qed.
